@@ -36,7 +36,26 @@ def run_case(args):
     out = None
     if rc == 0 and os.path.exists(outp):
         out = clirun.read_rpu_file(outp)
-    return rc, out, se[-300:].decode(errors="replace")
+    extra = {}
+    if rc == 0 and out is not None and cfg_json:
+        # metamorphic companions, computed by the real tool itself:
+        #  (a) the same config without list-wide entries (ranges, remove, duplicate, source): per-frame result of every frame
+        #  (b) the same config without `duplicate`: the list duplication starts from
+        pf = {k: v for k, v in cfg_json.items() if k not in ("remove", "duplicate", "source_rpu", "rpu_levels")}
+        if "scene_cuts" in pf:
+            pf["scene_cuts"] = {k: v for k, v in pf["scene_cuts"].items() if k.lower() == "all"}
+        if "active_area" in pf and "edits" in pf["active_area"]:
+            pf["active_area"] = dict(pf["active_area"])
+            pf["active_area"]["edits"] = {k: v for k, v in pf["active_area"]["edits"].items() if k.lower() == "all"}
+        for tag, cj in (("perframe", pf), ("nodup", {k: v for k, v in cfg_json.items() if k != "duplicate"})):
+            if tag == "nodup" and "duplicate" not in cfg_json:
+                continue
+            cp = os.path.join(d, tag + ".json")
+            json.dump(cj, open(cp, "w"))
+            op = os.path.join(d, tag + ".bin")
+            rc2, _, _ = clirun.run(["editor", "-i", inp, "-j", cp, "-o", op])
+            extra[tag] = clirun.read_rpu_file(op) if rc2 == 0 and os.path.exists(op) else None
+    return rc, out, se[-300:].decode(errors="replace"), extra
 
 
 def run(ctx):
@@ -81,7 +100,7 @@ def run(ctx):
         clirun.cleanup(work)
     mo, _, _ = common.run_lines_sharded(common.MODEL_EXE, lines)
     ctx.evaluations += len(lines)
-    for (i, _, rpus, cfg_json, src, compact, facts), (rc, out, se), m, l in zip(cases, res, mo, lines):
+    for (i, _, rpus, cfg_json, src, compact, facts), (rc, out, se, extra), m, l in zip(cases, res, mo, lines):
         n = len(rpus)
         ctx.count("frames=%d" % n)
         for k in cfg_json:
@@ -131,6 +150,45 @@ def run(ctx):
                                              "observed": "frame outside every range changed", "expected": "byte-identical",
                                              "shape": "frame-locality"})
                             break
+            # --- metamorphic oracles on the real tool (no model involved) ----------------------
+            removed_ok = ok_ranges
+            kept = [k for k in range(n) if k not in removed]
+            base = out
+            if "dups" in facts:
+                nd = extra.get("nodup")
+                if nd is not None:
+                    # documented duplication: entries by descending offset (stable, reversed), each inserts
+                    # `length` copies of the frame at `source` (index in the list at that moment) before `offset`
+                    exp = list(nd)
+                    ds = sorted(enumerate(facts["dups"]), key=lambda t: (t[1]["offset"], t[0]))
+                    ds.reverse()
+                    okd = True
+                    for _, dd in ds:
+                        if not (dd["source"] < len(exp) and dd["offset"] <= len(exp)):
+                            okd = False
+                            break
+                        srcf = exp[dd["source"]]
+                        exp[dd["offset"]:dd["offset"]] = [srcf] * dd["length"]
+                    if okd and exp != out:
+                        ctx.oracle_fail({"op": "editor", "input": l[:6000], "config": cfg_json,
+                                         "observed": "duplicate result differs from splicing copies of the source frame into the list produced without `duplicate`",
+                                         "expected": "%d frames, copies of frame `source` at `offset`" % len(exp), "shape": "duplicate-semantics"})
+                    base = nd
+            pfl = extra.get("perframe")
+            if pfl is not None and removed_ok and base is not None and src is None and len(pfl) == n and len(base) == len(kept):
+                rs = [parse_range(k) for k in facts["ranges"]]
+                if all(r is not None for r in rs):
+                    touched = set()
+                    for a, b in rs:
+                        touched.update(range(a, b + 1))
+                    for pos, idx in enumerate(kept):
+                        if idx not in touched and base[pos] != pfl[idx]:
+                            ctx.oracle_fail({"op": "editor", "input": l[:6000], "config": cfg_json, "frame": idx,
+                                             "observed": "input frame %d lies outside every configured range but differs from its per-frame result" % idx,
+                                             "expected": "only the per-frame operations apply to it", "shape": "range-applied-to-wrong-frame"})
+                            break
+                    # frames inside a range: scene flag / L5 must be the range's value on top of the per-frame result;
+                    # checked through the model correspondence
         else:
             ctx.count("result=err")
             # a syntactically fine config with in-bounds ranges must not fail merely because of the ranges
